@@ -20,10 +20,12 @@ def run(repo, report, tier):
     report.rule("C20.R6", "both consumers of the error-range table (text report and JSON report) build it from the end statistics' effective_length and max_error_rate",
                 "text and JSON reports disagree about allowed errors; N wildcards are counted as real bases")
     report.guard("C20.R1", "registration sites", r1_register, repo, report)
+    report.guard("C20.R1", "ownership of the match list", r1_fresh_match_list, repo, report)
     report.guard("C20.R2", "add_match bodies", r2_tallies, repo, report)
     report.guard("C20.R3", "Statistics._collect_modifier", r3_collect, repo, report)
     report.guard("C20.R6", "ErrorRanges call sites", r6_error_ranges, repo, report)
     report.guard("C20.R2", "histogram rows", r2_histogram_rows, repo, report)
+    report.guard("C20.R6", "per-adapter section of the text report", r6_per_adapter_values, repo, report)
     report.notes.append("C20.R4 (merge of statistics is complete and additive) is C06.R4; C20.R5 (removed_sequence_length) is C03.R4. Not decided: the 'allowed errors' arithmetic of ErrorRanges (int(e/rate)-1 is not max{L: floor(L*rate) < e} when 1/rate is not an integer: -e 0.15, length 20 reports [5, 12, 19, 20], true [6, 13, 19, 20]) - a numeric defect seen while reading, outside the reach of a shape rule.")
 
 
@@ -426,3 +428,69 @@ def r2_histogram_rows(repo, report):
         ok = True if (elt_ok and rng and top_ok) else False if sparse else None  # any other shape is not judged
     report.ob("C20.R2", "histogram_rows: error_counts[k] is the tally for k errors", ok, facts=facts, expected="[errors[length][e] for e in range(max(errors[length]) + 1)] (dense, position = number of errors)", loc=repo.loc(rows_[0]),
               why="" if ok is not False else "the list skips error numbers that did not occur, so later counts shift to lower error columns in the text and JSON reports")
+
+
+# attributes of the run-wide Statistics object that are tallies over ALL adapters (their per-adapter counterparts live on
+# the adapter's own statistics object)
+_RUN_WIDE_TALLIES = ("reverse_complemented", "with_adapters", "written", "written_bp", "total_written_bp", "quality_trimmed", "quality_trimmed_bp", "filtered", "total", "total_bp")
+
+
+def r6_per_adapter_values(repo, report):
+    """Inside the loops that describe ONE adapter (text report, JSON report) a printed tally must come from that
+    adapter's statistics object.  The run-wide object may only be asked whether a feature is on (... is not None /
+    truthiness) and for the number of reads (denominator of a fraction)."""
+    n = 0
+    for owner, fname in ((None, "full_report"), ("Statistics", "_adapter_statistics_as_json"), ("Statistics", "as_json")):
+        fn = repo.func("report", fname) if owner is None else repo.method(owner, fname)[1]
+        if fn is None:
+            continue
+        run = "self" if owner else params(fn)[0]
+        for lp in [x for x in ast.walk(fn) if isinstance(x, (ast.For, ast.ListComp, ast.GeneratorExp))]:
+            if isinstance(lp, ast.For):
+                it, body = lp.iter, lp.body
+            else:
+                it, body = lp.generators[0].iter, [lp.elt]
+            if "adapter_stats" not in src(it):
+                continue
+            n += 1
+            bad = []
+            for st in body:
+                for x in ast.walk(st):
+                    if isinstance(x, ast.Attribute) and isinstance(x.value, ast.Name) and x.value.id == run and x.attr in _RUN_WIDE_TALLIES and isinstance(x.ctx, ast.Load):
+                        par = getattr(x, "_parent", None)
+                        is_none_test = isinstance(par, ast.Compare) and len(par.ops) == 1 and isinstance(par.ops[0], (ast.Is, ast.IsNot)) and isinstance(par.comparators[0], ast.Constant) and par.comparators[0].value is None
+                        is_truth_test = isinstance(par, (ast.If, ast.IfExp, ast.While)) and par.test is x or (isinstance(par, ast.UnaryOp) and isinstance(par.op, ast.Not)) or (isinstance(par, ast.BoolOp))
+                        if not (is_none_test or is_truth_test):
+                            bad.append(f"{run}.{x.attr} at line {x.lineno}")
+            report.ob("C20.R6", f"{fname}: values shown for one adapter come from that adapter's statistics", not bad, facts={"loop_over": src(it)[:60], "run_wide_values_used": bad[:3]}, loc=repo.loc(lp),
+                      expected=f"inside the per-adapter loop, {run}.<run-wide tally> appears only in 'is (not) None' / truth tests",
+                      why=(f"{bad[0]} is the tally over all adapters, shown as if it were this adapter's" if bad else ""))
+    report.floor("C20.R6", "per-adapter loops in the reports", n, 2)
+
+
+def r1_fresh_match_list(repo, report):
+    """--revcomp calls match_and_trim twice per read (both orientations) and keeps BOTH results until it has chosen;
+    the chosen list is what gets tallied.  The list a call returns must therefore be created by that call - a list
+    kept on the cutter and cleared per call would make the first result change under the caller's hands."""
+    c, fn = repo.need_method("AdapterCutter", "match_and_trim")
+    rets = [x for x in ast.walk(fn) if isinstance(x, ast.Return) and isinstance(x.value, ast.Tuple) and len(x.value.elts) == 2]
+    if not rets:
+        raise Unrecognised("AdapterCutter.match_and_trim: 'return trimmed_read, matches' not found", repo.loc(fn))
+    bad = []
+    for r in rets:
+        e = r.value.elts[1]
+        origin = e
+        if isinstance(e, ast.Name):
+            binds = [x for x in ast.walk(fn) if isinstance(x, (ast.Assign, ast.AnnAssign)) and any(isinstance(t, ast.Name) and t.id == e.id for t in (x.targets if isinstance(x, ast.Assign) else [x.target]))]
+            origin = binds[0].value if len(binds) == 1 else None
+            if len(binds) > 1:
+                fresh_all = all(isinstance(b.value, (ast.List, ast.ListComp)) or (isinstance(b.value, ast.Call) and chain(b.value.func) in ("list", "sorted")) for b in binds)
+                if not fresh_all:
+                    bad.append(f"{e.id} has several bindings, not all of them new lists")
+                continue
+        fresh = isinstance(origin, (ast.List, ast.ListComp)) or (isinstance(origin, ast.Call) and chain(origin.func) in ("list", "sorted"))
+        if not fresh:
+            bad.append(f"returns {src(e)} = {src(origin) if origin is not None else '?'}")
+    report.ob("C20.R1", "AdapterCutter.match_and_trim returns a list of its own", not bad, facts={"returns": len(rets), "problems": bad[:2]}, loc=repo.loc(fn),
+              expected="the returned match list is created inside the call ([] / a comprehension / list(...))",
+              why=(f"{bad[0]}: a list that outlives the call is shared between the two orientation trials of --revcomp, so the matches tallied for the kept orientation are those of the other trial" if bad else ""))
